@@ -42,7 +42,7 @@ ASSUMPTIONS = [
 ]
 REPORT_COUNTERS = ["cases", "crash_points_enumerated", "faults_raised", "scn_first_call", "scn_rebuild", "scn_cache_miss",
                    "scn_next_chain", "scn_invalid_method", "scn_hook_raises", "scn_recursion", "probe_vectors_compared",
-                   "invalid_method_positions", "recursion_faults", "hook_faults", "post_fault_behaviours"]
+                   "invalid_method_positions", "invalid_method_via_linkback_parent", "recursion_faults", "hook_faults", "post_fault_behaviours"]
 
 SCENARIOS = ["first_call", "rebuild", "cache_miss", "next_chain", "invalid_method", "hook_raises", "recursion"]
 
@@ -127,18 +127,18 @@ def _setup(spec, env, scn):
     c0, c1 = spec["op_calls"][0], spec["op_calls"][1]
     if scn == "first_call":
         a = prog.args(c0)
-        op = lambda: prog.ov(*a[0])  # noqa: E731
+        op = lambda: prog.fn(*a[0])  # noqa: E731
         prog.vf.alt = a[2]
     elif scn == "cache_miss":
         prog.call(c0)
         a = prog.args(c1)
         prog.vf.alt = a[2]
-        op = lambda: prog.ov(*a[0])  # noqa: E731
+        op = lambda: prog.fn(*a[0])  # noqa: E731
     elif scn == "next_chain":
         prog.ov.compile()
         a = prog.args(c1)
         prog.vf.alt = a[2]
-        op = lambda: prog.ov(*a[0])  # noqa: E731
+        op = lambda: prog.fn(*a[0])  # noqa: E731
     else:  # rebuild
         prog.call(c0)
         fn = prog.make(spec["late"])
@@ -229,6 +229,9 @@ def _invalid(spec, env, res, ref, behaviours):
     from ovld import Ovld
     methods = spec["methods"]
     for p in range(len(methods) + 1):
+        # every other position: the methods (and the invalid one) live on a parent and the function under test is a
+        # linkback copy of it - the offending method is then removed through the parent
+        linkback = p % 2 == 1
         prog = Program(spec, env=env, tag="c18i", build=False)
         prog.ov = Ovld()
         bad = _bad_method(spec["badkind"], spec, prog.ns, prog.vf)
@@ -242,6 +245,10 @@ def _invalid(spec, env, res, ref, behaviours):
         except Exception as e:  # noqa: BLE001
             res.count("invalid_rejected_at_registration")
             continue
+        parent = prog.ov
+        if linkback:
+            prog.ov = parent.copy(linkback=True)
+            res.count("invalid_method_via_linkback_parent")
         prog.bind()
         res.ev()
         res.count("invalid_method_positions")
@@ -265,12 +272,17 @@ def _invalid(spec, env, res, ref, behaviours):
                     prog.close()
                     return
         try:
-            prog.ov.unregister(bad)
+            parent.unregister(bad)
         except Exception as e:  # noqa: BLE001
             res.violation("unregister-of-invalid-method-fails", [spec["badkind"], type(e).__name__], spec,
                           observed={"position": p, "error": f"{type(e).__name__}: {e}"[:160]}, acceptable="the function works normally once the offending method is removed")
             prog.close()
             return
+        if linkback:
+            try:   # a copy only gets its entry point when it is first built; f.next bodies name it
+                prog.ov.ensure_compiled()
+            except Exception:  # noqa: BLE001
+                pass
         prog.bind()
         got = _probe(prog, spec["probes"])
         res.count("probe_vectors_compared")
